@@ -9,7 +9,8 @@ ELS = ['C', 'N', 'O', 'H', 'Zr', 'Cl']
 def make_doc(n_atoms, bonds, ids, rnd):
     atoms = []
     for i in range(n_atoms):
-        atoms.append((ids[i], ELS[rnd.randrange(len(ELS))], round(rnd.uniform(-50, 50), 5), round(rnd.uniform(-1e3, 1e3), 4), round(rnd.uniform(-5, 5), 6)))
+        atoms.append((ids[i], ELS[rnd.randrange(len(ELS))], round(rnd.uniform(-50, 50), 5), round(rnd.uniform(-1e3, 1e3), 4),
+                      rnd.choice([round(rnd.uniform(-5, 5), 6), -2.5e-05, 1.5e+17, 3e-07])))
     lines = ['<?xml version="1.0" encoding="UTF-8"?>', '<molecule xmlns="http://www.xml-cml.org/schema">'.replace(' xmlns="http://www.xml-cml.org/schema"', ''), ' <atomArray>']
     for a in atoms:
         lines.append('  <atom id="%s" elementType="%s" x3="%r" y3="%r" z3="%r"/>' % a)
@@ -37,6 +38,9 @@ def build(spec):
     elif scheme == 'shuffled':
         ids = ['a%d' % (i + 1) for i in range(n)]
         rnd.shuffle(ids)
+    elif scheme == 'case':
+        base = ['CA', 'Ca', 'N', 'n', 'HA', 'Ha', 'OW', 'ow']
+        ids = base[:n] if n <= len(base) else base + ['z%d' % i for i in range(n - len(base))]
     else:
         ids = ['%s_%s' % (rnd.choice(['x', 'atom', 'Zr', 'q-']), ''.join(rnd.choice('abcXYZ019') for _ in range(4)) + str(i)) for i in range(n)]
     pairs = [(i, j) for i in range(n) for j in range(n) if i != j]
@@ -78,7 +82,32 @@ def check(spec):
     return None
 
 
+def check_rewrite():
+    """The same path loaded again after the file was rewritten reflects the new content (and agrees with an open file)."""
+    from mofun import Atoms
+    d = tempfile.mkdtemp(prefix='c16_')
+    path = os.path.join(d, 'pattern.cml')
+    msg = None
+    try:
+        for k, spec in enumerate([dict(n_atoms=3, n_bonds=2, scheme='seq', seed=1), dict(n_atoms=5, n_bonds=3, scheme='shuffled', seed=2), dict(n_atoms=1, n_bonds=0, scheme='seq', seed=3)]):
+            text, atoms, bonds = build(spec)
+            open(path, 'w').write(text)
+            with quiet():
+                a = Atoms.load(path)
+            if list(a.elements) != [x[1] for x in atoms] or len(a.bonds) != len(bonds):
+                msg = "load #%d of the rewritten path gives %d atoms / %d bonds, the file now holds %d / %d" % (k + 1, len(a.positions), len(a.bonds), len(atoms), len(bonds))
+                break
+    finally:
+        if os.path.exists(path):
+            os.unlink(path)
+        os.rmdir(d)
+    return msg
+
+
 def replay(inp):
+    if inp.get('rewrite'):
+        msg = check_rewrite()
+        return (msg is not None), (msg or 'reloading a rewritten path reflects the file')
     spec = dict(n_atoms=int(inp.get('n_atoms', 1)), n_bonds=int(inp.get('n_bonds', 0)), scheme=inp.get('scheme', 'seq'), seed=inp.get('seed', 0))
     msg = check(spec)
     return (msg is not None), (msg or 'document loads faithfully')
@@ -88,6 +117,10 @@ REPLAY = {'cml': replay}
 
 
 def run(rec, tier, seed):
+    msg = check_rewrite()
+    rec.case('rewrite-same-path', group='rewrite')
+    if msg:
+        rec.fail('cml', 'load-rewritten-path', msg, {'rewrite': True}, 'C16/load/path')
     rec.rule = ("generated Avogadro-flavour CML documents: 1-6 atoms, 0-6 bonds, id schemes {sequential, non-sequential, shuffled, arbitrary "
                 "strings}, signed coordinates of varied magnitude; loaded from StringIO, from a path via Atoms.load and from an open file; "
                 "compared with the document. distinct = specs; non-trivial = all")
@@ -96,7 +129,7 @@ def run(rec, tier, seed):
         for nb in sorted({0, 1, min(n * (n - 1), 3), min(n * (n - 1), 6)}):
             if n == 1 and nb > 0:
                 continue
-            for scheme in ('seq', 'nonseq', 'shuffled', 'arbitrary'):
+            for scheme in ('seq', 'nonseq', 'shuffled', 'arbitrary', 'case'):
                 for s in seeds:
                     spec = gen_spec(n, nb, scheme, seed * 100 + s)
                     msg = check(spec)
